@@ -317,16 +317,6 @@ def run_check(prop, tier, seed, runs=None, budget=None, workers=None, start=0, q
     # 2. the batch
     batch = Batch(prop, tier, seed, runs=runs, budget=budget, workers=workers, start=start)
     extra = {}
-    if hasattr(mod, "pre_batch"):
-        pre = mod.pre_batch(tier, seed)
-        if pre.get("violation"):
-            path = replay_path(prop, seed, "arm")
-            with open(path, "w") as f:
-                json.dump(pre["violation"], f, indent=1, sort_keys=True, default=core._default)
-            print(f"VIOLATION property={prop} replay={path}")
-            print("  detail:", core.short(pre["violation"], 600))
-            return 1
-        extra.update(pre.get("evidence", {}))
     total = batch.run()
     if total["harness_errors"]:
         for i, msg in total["harness_errors"][:3]:
@@ -336,6 +326,18 @@ def run_check(prop, tier, seed, runs=None, budget=None, workers=None, start=0, q
     for v in total["violations"]:
         if v[3] in known_tags:
             known_hits[v[3]] = known_hits.get(v[3], 0) + 1
+    if not unlisted and hasattr(mod, "post_batch"):
+        # secondary arm (e.g. the real multiprocessing.Pool): only consulted when the simulated batch is clean
+        post = mod.post_batch(tier, seed)
+        if post.get("violation"):
+            path = replay_path(prop, seed, "arm")
+            with open(path, "w") as f:
+                json.dump(post["violation"], f, indent=1, sort_keys=True, default=core._default)
+            write_evidence(prop, mod, tier, seed, batch, 1, known_hits, extra)
+            print("  detail:", core.short(post["violation"], 600))
+            print(f"VIOLATION property={prop} replay={path}")
+            return 1
+        extra.update(post.get("evidence", {}))
     write_evidence(prop, mod, tier, seed, batch, len(unlisted), known_hits, extra)
     if not quiet:
         print(f"{prop} {tier}: runs={total['runs']} nontrivial-distinct={len(total['nontrivial_sigs'])} "
